@@ -7,19 +7,26 @@ PROPERTY = "C19"
 META = {
     "level": "model_checking",
     "functions": ["apps/asconcrypt/asconcrypt.c: encrypt_file, decrypt_file, generate_password, read_keyfile, is_encrypted_filename, strip_suffix, add_suffix",
-                  "apps/asconcrypt/fileops.c: safe_file_{open_read,open_write,read,write,close,delete}", "apps/asconsum/asconsum.c: hash_file, check_file, to_hex_digit, *_file read loops"],
+                  "apps/asconcrypt/fileops.c: safe_file_{open_read,open_write,read,write,close,delete}", "apps/asconsum/asconsum.c: hash_file, check_file, to_hex_digit, *_file read loops",
+                  "apps/asconcrypt/asconcrypt.c: main() driven with `MODE -p PASSWORD -o out in` (getopt modelled): password acquisition, key derivation from the whole password, exit status, wipe"],
     "bounds": "file sizes {0,1,15,16,17,31,32,33,48,63,64,65,69} with the I/O buffer scaled to 32 bytes (BUFSIZ redefinition; the logic is size-generic); contents, passwords, file names symbolic; "
               "every read/write/open and the random source may fail under a symbolic fault schedule (hard error, EINTR/EAGAIN, short transfer, zero-length write)",
-    "outside": "asconsum check mode (check_file line parser: queries written, harness/C19/sum.c KIND 2/3, but they do not finish within budget) and the asconcrypt encrypt->decrypt round trip; whole-process behaviour: real getopt, terminal prompting, signals; crash of the writer other than as a truncated input; cryptographic tamper detection (decided in C02); real BUFSIZ (8192)",
+    "outside": "asconsum check mode: well-formed lines are decided for two concrete digit patterns (every digit, both cases) with a symbolic computed digest, plus to_hex_digit for every character, "
+               "instead of all 64-digit strings (the parser's control flow is character dependent and symbolic digits made every loop bound symbolic); arbitrary lines of 1..100 symbolic characters are decided for "
+               "memory safety and failure status; check files with more than one line; the asconcrypt encrypt->decrypt round trip in ONE query (each direction is decided against the same stubs); "
+               "main() with -k / prompting / several input files; whole-process behaviour: real getopt, terminal prompting, signals; crash of the writer other than as a truncated input; cryptographic tamper detection (decided in C02); real BUFSIZ (8192)",
     "assumptions": ["POSIX I/O modelled by harness/C19 stubs (read/write may return -1 with EINTR/EAGAIN/EIO or a short count)", "crypto replaced by tracking stubs in the fault/format queries",
-                    "snprintf/printf/fprintf/perror/getopt/getpass contract stubs"],
+                    "snprintf/printf/fprintf/perror/getopt/getpass contract stubs (getopt: short options, one per argument)",
+                    "strlen of a buffer just filled by the modelled fgets / of the -p argument is answered from the model's concrete length after CHECKing it; "
+                    "asconsum queries run with --max-field-sensitivity-array-size 2048 (1024-byte line buffer)"],
     "explanation": "bounded model checking of the tool functions with a modelled file system and fault schedule",
 }
 MANIFEST = {
     "text": "Bounded model checking of the tool code (real sources, included into the harness) against a modelled file system: under every fault schedule a failed read, write, open or random source "
             "makes the operation report failure and delete its output; malformed or truncated inputs are rejected; a successful run wrote the complete file; asconsum prints the digest lines and "
             "reports OK exactly for matching digests.",
-    "note": "Unit level with a modelled environment; process-level behaviour (argument parsing by the real getopt, prompting, exit status plumbing through main) is outside. Tag strength is C02.",
+    "note": "Unit level with a modelled environment, plus main() of asconcrypt for the -p path (exit status, whole password reaches the KDF, no output left on failure); the real getopt and prompting are outside. Tag strength is C02.",
+    "technique": "bounded model checking with CBMC/cadical of the real tool sources against a modelled file system and a concrete-per-query fault schedule",
 }
 APP = "apps/asconcrypt"
 SIZES_Q = [0, 1, 16, 31, 32, 33, 65]
@@ -39,6 +46,14 @@ def q(kind, n=0, namelen=1, fault=(0, 0, 0)):
                  includes=[APP, "apps"], defs={"KIND": kind, "IN_LEN": n, "NAMELEN": namelen, "FAULT_OP": fault[0], "FAULT_AT": fault[1], "FAULT_KIND": fault[2]},
                  shape={"function": kn, "file_bytes": n, "name_chars": namelen, "fault": {"op": fault[0], "at_call": fault[1], "kind": fault[2]}},
                  unwind=1100, timeout=900, mem_gb=12)
+
+
+def qmain(mode, pwlen, n, fault=(0, 0, 0)):
+    name = "main:%s:pw%d:len%d:fault%d-%d-%d" % ((mode.strip("-"), pwlen, n) + fault)
+    return Query(name, "harness/C19/crypt.c", repo_srcs=[APP + "/fileops.c"], backend="c64", with_backend=False, with_spec=False,
+                 includes=[APP, "apps"], defs={"KIND": 7, "IN_LEN": n, "PWLEN": pwlen, "MAIN_DECRYPT": int(mode == "-d"), "FAULT_OP": fault[0], "FAULT_AT": fault[1], "FAULT_KIND": fault[2]},
+                 shape={"function": "main", "mode": mode, "password_chars": pwlen, "file_bytes": n, "fault": {"op": fault[0], "at_call": fault[1], "kind": fault[2]}},
+                 unwind=max(1100, pwlen + 10), timeout=1200, mem_gb=12)
 
 
 def queries(tier):
@@ -65,6 +80,14 @@ def queries(tier):
         qs.append(q(5, n, fault=(1, 0, 1)))
     for f in [(0, 0, 0), (2, 0, 3), (2, 1, 3), (2, 0, 5), (2, 0, 4), (2, 0, 1), (3, 0, 3), (5, 0, 3)]:
         qs.append(q(6, fault=f))
+    # main(): option handling, password acquisition from -p, exit status plumbing
+    for mode in ("-e", "-d"):
+        for pwlen in ([1, 8, 1022, 1023, 1024, 1025] if tier == "quick" else [1, 2, 8, 100, 511, 1021, 1022, 1023, 1024, 1025, 1026, 1100]):
+            qs.append(qmain(mode, pwlen, 33 if mode == "-e" else 129))
+        for f in [(1, 0, 3), (2, 0, 3), (2, 1, 5), (3, 0, 3), (4, 0, 3), (5, 0, 3)]:
+            if mode == "-d" and f[0] == 3:
+                continue
+            qs.append(qmain(mode, 8, 33 if mode == "-e" else 129, fault=f))
     try:
         from checks import C19sum
         qs += C19sum.queries(tier)
